@@ -135,6 +135,37 @@ func c07Name(s string) string {
 	return c07Names[n]
 }
 
+// c07Numeric: the name is "0" or "1" (codes 15, 16), which cannot follow a dot
+func c07Numeric(code string) bool { return code == "15" || code == "16" }
+
+// c07Literal renders the members of an object literal; a data key is spelled as identifier / string / number
+// in turn, a literal getter returns a string (opaque 997), a literal setter logs its call as function 900.
+func c07Literal(ms []string) string {
+	var parts []string
+	for j, m := range ms {
+		f := strings.Split(m, ".")
+		name := c07Name(f[1])
+		key := name
+		switch {
+		case c07Numeric(f[1]) && j%2 == 0:
+			key = name // numeric literal: 0, 1
+		case c07Numeric(f[1]) || j%3 == 1:
+			key = "'" + name + "'"
+		}
+		switch f[0] {
+		case "v":
+			parts = append(parts, key+":"+c07ValLit(f[2]))
+		case "g":
+			parts = append(parts, "get "+key+"(){return 'g';}")
+		case "s":
+			parts = append(parts, "set "+key+"(v){L.push('900.'+IX(this)+'.'+V(v));}")
+		default:
+			panic("bad literal member " + m)
+		}
+	}
+	return "{" + strings.Join(parts, ",") + "}"
+}
+
 func c07Bool(s string, alt bool) string {
 	if alt {
 		if s == "1" {
@@ -252,6 +283,8 @@ func c07Script(toks []string) string {
 		body := ""
 		strict := ""
 		switch f[0] {
+		case "L":
+			body = "var x=" + c07Literal(ents) + ";O.push(x);return 'ok';"
 		case "N":
 			switch f[1] {
 			case "fproto":
@@ -289,7 +322,7 @@ func c07Script(toks []string) string {
 			if f[1] == "1" {
 				strict = "'use strict';"
 			}
-			if alt {
+			if alt || c07Numeric(f[3]) {
 				body = fmt.Sprintf("O[%s]['%s']=%s;return 'ok';", f[2], c07Name(f[3]), c07ValLit(f[4]))
 			} else {
 				body = fmt.Sprintf("O[%s].%s=%s;return 'ok';", f[2], c07Name(f[3]), c07ValLit(f[4]))
@@ -298,7 +331,11 @@ func c07Script(toks []string) string {
 			if f[1] == "1" {
 				strict = "'use strict';"
 			}
-			body = fmt.Sprintf("return (delete O[%s].%s)?'t':'f';", f[2], c07Name(f[3]))
+			if c07Numeric(f[3]) {
+				body = fmt.Sprintf("return (delete O[%s]['%s'])?'t':'f';", f[2], c07Name(f[3]))
+			} else {
+				body = fmt.Sprintf("return (delete O[%s].%s)?'t':'f';", f[2], c07Name(f[3]))
+			}
 		case "D":
 			body = fmt.Sprintf("Object.defineProperty(O[%s],'%s',%s);return 'ok';", f[1], c07Name(f[2]), c07Desc(f[3:], i%6))
 			if ps := c07DescPartsOrNil(f[3:]); i%12 == 11 && len(ps) > 0 {
@@ -338,7 +375,7 @@ func c07Script(toks []string) string {
 			panic("bad op " + tok)
 		}
 		guard := ""
-		if f[0] == "N" {
+		if f[0] == "N" || f[0] == "L" {
 		} else if f[0] == "C" {
 			if f[1] != "-" {
 				guard = "if(O[" + f[1] + "]===undefined)return 'bad';"
@@ -667,6 +704,19 @@ func c07gs(r *h.Rng) string {
 	}
 }
 
+var c07LitNames = []string{"0", "1", "16"}
+
+func c07RandMember(r *h.Rng) string {
+	n := c07LitNames[r.Intn(len(c07LitNames))]
+	switch r.Intn(4) {
+	case 0:
+		return "g." + n
+	case 1:
+		return "s." + n
+	}
+	return "v." + n + "." + c07pick(r, "4", "5")
+}
+
 // c07RandDesc returns "e.c.w.v.g.s" or "N" and the distribution key of its shape.
 func c07RandDesc(r *h.Rng) (string, string) {
 	e, c := c07tri(r, 45), c07tri(r, 45)
@@ -733,6 +783,15 @@ func c07RandHistory(c *h.Ctx, r *h.Rng) string {
 	var toks []string
 	nobj := 0
 	create := func() {
+		if r.Chance(15) {
+			tok := "L"
+			for k := r.Intn(4); k > 0; k-- {
+				tok += "/" + c07RandMember(r)
+			}
+			toks = append(toks, tok)
+			nobj++
+			return
+		}
 		if r.Chance(30) {
 			toks = append(toks, "N."+c07pick(r, c07Kinds...))
 			nobj++
@@ -754,7 +813,7 @@ func c07RandHistory(c *h.Ctx, r *h.Rng) string {
 		a := strconv.Itoa(r.Intn(nobj))
 		n := strconv.Itoa(r.Intn(3))
 		if r.Chance(35) {
-			n = strconv.Itoa(3 + r.Intn(12)) // names 3..14; "0","1","callee" belong to the arguments histories
+			n = strconv.Itoa(3 + r.Intn(14)) // names 3..16 ("callee" belongs to the arguments histories)
 		}
 		switch x := r.Intn(100); {
 		case x < 24:
@@ -888,6 +947,30 @@ func genC07(c *h.Ctx) {
 						}
 					}
 				}
+			}
+		}
+	}
+	// (2b') object literals as start objects: every member sequence of length <= 3 over three names (a, b, '1'/1)
+	// and data / getter / setter members - repeated data keys, string vs numeric spelling, data after accessor,
+	// accessor after data, getter+setter pairs in both orders - then delete / redefine / freeze
+	var lmem []string
+	for _, n := range c07LitNames {
+		lmem = append(lmem, "v."+n+".4", "v."+n+".5", "g."+n, "s."+n)
+	}
+	for _, m1 := range lmem {
+		c.Add("h L/"+m1, "literal:1")
+		for _, m2 := range lmem {
+			l2 := "h L/" + m1 + "/" + m2
+			c.Add(l2, "literal:2")
+			n2 := strings.Split(m2, ".")[1]
+			c.Add(l2+" X.0.0."+n2+" P.0.0."+n2+".6 D.0."+n2+".-.0.-.-.-.- F.0", "literal:2-steps")
+			for _, m3 := range lmem {
+				if !c.Thorough() && r.Intn(4) != 0 {
+					continue
+				}
+				l3 := l2 + "/" + m3
+				c.Add(l3, "literal:3")
+				c.Add(l3+" C.0 X.0.0."+strings.Split(m1, ".")[1]+" S.0", "literal:3-steps")
 			}
 		}
 	}
